@@ -145,19 +145,16 @@ ALL = CharSet.all()
 _CAT_CACHE: Dict[object, CharSet] = {}
 
 
-def _from_predicate(pred) -> CharSet:
-    iv = []
-    start = None
-    for cp in range(MAXCP + 1):
-        if pred(chr(cp)):
-            if start is None:
-                start = cp
-        elif start is not None:
-            iv.append((start, cp - 1))
-            start = None
-    if start is not None:
-        iv.append((start, MAXCP))
-    return CharSet(iv)
+_ALL_CHARS: Optional[str] = None
+
+
+def _from_regex_class(cls_text: str) -> CharSet:
+    """Code points matched by a stdlib character class, asked of the engine itself:
+    the string of all code points is scanned once, index == code point."""
+    global _ALL_CHARS
+    if _ALL_CHARS is None:
+        _ALL_CHARS = "".join(map(chr, range(MAXCP + 1)))
+    return CharSet((m.start(), m.end() - 1) for m in re.finditer(cls_text + "+", _ALL_CHARS))
 
 
 def category(cat) -> Optional[CharSet]:
@@ -173,8 +170,7 @@ def category(cat) -> Optional[CharSet]:
         return None
     name, neg = base
     if name not in _CAT_CACHE:
-        pred = {"digit": str.isdecimal, "space": str.isspace, "word": lambda ch: ch.isalnum() or ch == "_"}[name]
-        _CAT_CACHE[name] = _from_predicate(pred)
+        _CAT_CACHE[name] = _from_regex_class({"digit": r"\d", "space": r"\s", "word": r"\w"}[name])
     cs = _CAT_CACHE[name]
     res = cs.complement() if neg else cs
     _CAT_CACHE[cat] = res
